@@ -17,7 +17,8 @@ META = {
     "note": "Bounded: fault points are enumerated per library, not for all libraries; multiple simultaneous faults are sampled. The alarm is "
             "modelled by an exception raised by a trace function at a 'line' event of the frame executing the with-body (not at `try:` "
             "keywords and comprehension back edges, where CPython's tracing, unlike a signal handler, bypasses the handlers). Single rank.",
-    "structural": "In addition, exception-edge obligations are discharged on the AST of simplifier.py for every time-limited region (pyvc/excedge.py): E1 a "
+    "structural": "The three TimeoutException handlers that re-align parallel lists (sympy_simplify twice, expand_or_factor) are verified from their AST: whatever lengths the lists had when the "
+                  "timeout struck, afterwards they all have the shortest of those lengths and each is a prefix of what it was. In addition, exception-edge obligations are discharged on the AST of simplifier.py for every time-limited region (pyvc/excedge.py): E1 a "
                   "TimeoutException raised in the body reaches the region's handler (no inner handler swallows it), E2 the handler reads only names assigned before the try, "
                   "E3 parallel lists extended in the body are re-aligned by the handler. They are reported as obligations with back end pyvc.excedge; a failing one without a "
                   "failing injection is reported with no-failing-input-found.",
@@ -105,6 +106,16 @@ def check(run):
                                    "exception-edge obligations of the time-limited regions (E1 timeout reaches the region's handler, E2 handler reads definitely assigned names, E3 parallel lists re-aligned)",
                                    needs_module_names=True)
     D.report_structural(run, sfailed, "excedge", "pyvc/excedge.py")
+    # the handlers that re-align parallel lists after a timeout, verified from their AST (what E3 asks of them)
+    from contracts import c_dosympy
+    rfailed = []
+    for qual, w in (("sympy_simplify", 0), ("sympy_simplify", 1), ("expand_or_factor", 0)):
+        st_, f_, _e = D.verify_function(run, "generation/simplifier.py", qual, c_dosympy.realign_contract(qual, w), timeout_ms=8000, tag="timeout handler %d" % w,
+                                        note="region: `nkeep = min(len(..), ..)` and `del ..[nkeep:], ..` of the TimeoutException handler; the lists of the `del` statement are the parameters")
+        rfailed += f_
+    if rfailed and not run.violations:
+        from checks.C14 import report_unproved
+        report_unproved(run, rfailed, False, "TimeoutException handler re-aligning parallel lists")
     run.trust("pyvc.excedge (structural analysis of try/with/except)")
     return run.finish(META["level"], META["text"], CHECKER,
                       rule="cases = generation runs with at least one injected timeout; distinct = runs in which the injected timeout actually fired "
